@@ -403,7 +403,7 @@ def knownTlvTypes : Nat → Option (List Nat)
   | 36 => some [0, 1, 2, 4]         -- channel_ready
   | 39 => some [6]                  -- closing_signed
   | 40 => some [1, 2, 3, 5, 6, 7]   -- closing_complete
-  | 41 => some [1, 2, 3, 5, 6, 7]   -- closing_sig
+  | 41 => some [1, 2, 3, 5, 6, 7, 22] -- closing_sig
   | 133 => some [4, 22]             -- revoke_and_ack
   | 136 => some [4, 20, 22]         -- channel_reestablish
   | 258 => some [55555]             -- channel_update
